@@ -36,6 +36,9 @@ pub enum CallbackMode {
     Full,
     /// only on_exit implemented (the trait's defaults forward evict/reject to it)
     ExitOnly,
+    /// on_exit and on_evict implemented, on_reject left to the trait's default (which hands the
+    /// refused value to on_exit)
+    ExitEvict,
 }
 
 #[derive(Serialize, Deserialize, Clone, Debug)]
@@ -90,6 +93,9 @@ pub enum Op {
     DropHandle,
     /// switch off stalls and the eager clock ("faults stop here")
     FaultsOff,
+    /// fault: this client sleeps `ns` of virtual time at its (`skip`+1)-th scheduling point from
+    /// here, i.e. somewhere inside its next operation
+    StallSelf { ns: u64, skip: u32 },
 }
 
 impl Op {
@@ -136,6 +142,7 @@ impl Op {
             Op::Yield => "yield",
             Op::DropHandle => "drop_handle",
             Op::FaultsOff => "faults_off",
+            Op::StallSelf { .. } => "stall_self",
         }
     }
 }
@@ -159,6 +166,9 @@ pub struct StallPlan {
     pub at_step: u64,
     pub task: String,
     pub for_steps: u64,
+    /// > 0: the stall lasts this long in virtual time (see sim-rt `Stall::for_ns`)
+    #[serde(default)]
+    pub for_ns: u64,
 }
 
 #[derive(Serialize, Deserialize, Clone, Debug)]
